@@ -1,0 +1,31 @@
+// Copyright 2023 Google LLC
+//
+// Licensed under the Apache License, Version 2.0 (the "License");
+// you may not use this file except in compliance with the License.
+// You may obtain a copy of the License at
+//
+//     http://www.apache.org/licenses/LICENSE-2.0
+//
+// Unless required by applicable law or agreed to in writing, software
+// distributed under the License is distributed on an "AS IS" BASIS,
+// WITHOUT WARRANTIES OR CONDITIONS OF ANY KIND, either express or implied.
+// See the License for the specific language governing permissions and
+// limitations under the License.
+
+//go:build verif
+
+package maven
+
+// VerifStep, when set, receives one event per step of the resolver's main
+// loop: "restart" when an attempt is abandoned and the resolution starts
+// over, "dequeue" when a node is taken from the queue, "declare" for every
+// declaration of that node together with what was done about it, and "done"
+// with the size of the returned graph. It exists only in builds with the
+// verif tag.
+var VerifStep func(ev, name, version, requirement, outcome string, nodes, edges int)
+
+func verifStep(ev, name, version, requirement, outcome string, nodes, edges int) {
+	if VerifStep != nil {
+		VerifStep(ev, name, version, requirement, outcome, nodes, edges)
+	}
+}
